@@ -608,7 +608,7 @@ CLAIMS = [
           "to (not including) the first of SP TAB LF CR FF ( ) [ ] ; or end of input; the slice version returns exactly "
           "input[start..index], the stream version copies exactly the consumed bytes; slice indexing stays in bounds; a str is "
           "produced only through UTF-8 validation",
-          "symbols of any length (loop cut), arbitrary input bytes", configs=("fast",), also=("C12", "C17", "C03")),
+          "symbols of any length (loop cut), arbitrary input bytes", configs=("fast",), also=("C12", "C17", "C03", "C01", "C13")),
     Claim("c06_string_scanners", "C06", "quick", claim_string_scanners,
           "the byte-slice and the stream R6RS string scanner against one specification: every byte up to the next quote / "
           "backslash is kept, ranges copied by the slice version run exactly from `start` to that byte, a backslash enters the "
